@@ -329,12 +329,18 @@ pub(super) fn find_date_time(
 
                 let valid_iter = valid_transition_times.iter().copied().zip(valid_transitions.iter().copied());
 
-                for (transition_unix_time, &(&local_time_type_before, &local_time_type_after, unix_time_before, unix_time_after)) in valid_iter {
+                for (index, (transition_unix_time, &(&local_time_type_before, &local_time_type_after, unix_time_before, unix_time_after))) in
+                    valid_iter.enumerate()
+                {
+                    // DST start and end can occur at the same instant (e.g. all year DST), in which case they cancel each other and no local time is skipped
+                    let is_cancelled =
+                        previous_transition_unix_time == transition_unix_time || valid_transition_times.get(index + 1) == Some(&transition_unix_time);
+
                     if previous_transition_unix_time <= unix_time_before && unix_time_before < transition_unix_time {
                         found_date_time_list.push(FoundDateTimeKind::Normal(new_datetime(local_time_type_before, unix_time_before)));
                     } else {
                         // Check for a forward transition
-                        if unix_time_before >= transition_unix_time && unix_time_after < transition_unix_time {
+                        if !is_cancelled && unix_time_before >= transition_unix_time && unix_time_after < transition_unix_time {
                             found_date_time_list.push(FoundDateTimeKind::Skipped {
                                 before_transition: DateTime::from_timespec_and_local(transition_unix_time, nanoseconds, local_time_type_before)?,
                                 after_transition: DateTime::from_timespec_and_local(transition_unix_time, nanoseconds, local_time_type_after)?,
